@@ -85,7 +85,7 @@ func (k *c16Keys) dom(f *flow.Func, x ast.Expr, depth int) c16Dom {
 	x = ast.Unparen(x)
 	switch t := x.(type) {
 	case *ast.CallExpr:
-		if calleeIs(f, t, mq+".sessionStoreKey") {
+		if c16Is(f, t, mq+".sessionStoreKey") {
 			return c16DomKey
 		}
 		if calleeFull(f, t) == "strings.TrimPrefix" && len(t.Args) == 2 && k.dom(f, t.Args[0], depth+1) == c16DomKey {
@@ -168,16 +168,16 @@ func (k *c16Keys) sinks(f *flow.Func, withCalls bool) []c16Sink {
 				out = append(out, c16Sink{"index of a stored-session listing", c16DomKey, x.Args[1], x})
 			case len(x.Args) >= 1 && (ifaceMethodCall(f, x, mq, "storage", "get") || ifaceMethodCall(f, x, mq, "storage", "put") || ifaceMethodCall(f, x, mq, "storage", "delete")):
 				out = append(out, c16Sink{"key handed to the session storage", c16DomKey, x.Args[0], x})
-			case len(x.Args) >= 1 && c16Sel(f, c16Recv(x), e.sessMapF) && calleeIs(f, x, "(*sync.Map).Load", "(*sync.Map).Store", "(*sync.Map).Delete", "(*sync.Map).LoadAndDelete", "(*sync.Map).LoadOrStore"):
+			case len(x.Args) >= 1 && c16Sel(f, c16Recv(x), e.sessMapF) && c16Is(f, x, "(*sync.Map).Load", "(*sync.Map).Store", "(*sync.Map).Delete", "(*sync.Map).LoadAndDelete", "(*sync.Map).LoadOrStore"):
 				out = append(out, c16Sink{"key of the session cache", c16DomID, x.Args[0], x})
-			case calleeIs(f, x, "(*"+mq+".TopicManager).subscribe", "(*"+mq+".TopicManager).unsubscribe") && len(x.Args) >= 2:
+			case c16Is(f, x, "(*"+mq+".TopicManager).subscribe", "(*"+mq+".TopicManager).unsubscribe") && len(x.Args) >= 2:
 				out = append(out, c16Sink{"client id handed to the topic manager", c16DomID, x.Args[len(x.Args)-1], x})
-			case calleeIs(f, x, mq+".sessionStoreKey") && len(x.Args) == 1:
+			case c16Is(f, x, mq+".sessionStoreKey") && len(x.Args) == 1:
 				if tv := f.Info.Types[x.Args[0]]; tv.Value == nil {
 					out = append(out, c16Sink{"argument of sessionStoreKey", c16DomID, x.Args[0], x})
 				}
 			case withCalls:
-				if fo, ok := f.Callee(x).(*types.Func); ok {
+				if fo, ok := c16FnOK(f, x); ok {
 					if d := e.decls[fo]; d != nil && d.Body != f.Body {
 						for i, a := range x.Args {
 							if want := k.paramDom(d, i); want != c16DomUnknown {
